@@ -203,6 +203,13 @@ func variants(full *types.PartSet, i, j int, c string, univ [][]byte) []*types.P
 			p.Proof.Aunts = append(append([][]byte{}, p.Proof.Aunts[:pos]...), p.Proof.Aunts[pos+1:]...)
 			out = append(out, p)
 		}
+	case "noproof":
+		p := base()
+		p.Proof.Aunts = nil
+		out = append(out, p)
+		p = base()
+		p.Proof.Aunts = [][]byte{}
+		out = append(out, p)
 	default:
 		panic("unknown mutation " + c)
 	}
@@ -215,10 +222,24 @@ func runDyn(c *ctx, tr mbt.Trace) {
 	salt := mbt.Int(tr.Cfg["salt"])
 	total := mbt.Int(tr.Init["total"])
 	data := mkData(L, salt)
-	var full, recv *types.PartSet
+	hdr := "genuine"
+	if h, ok := tr.Init["hdr"]; ok {
+		hdr = mbt.Str(h)
+	}
+	var full *types.PartSet
+	var recvs []*types.PartSet
 	if pv, st := mbt.Catch(func() {
 		full = types.NewPartSetFromData(data, ps)
-		recv = types.NewPartSetFromHeader(full.Header())
+		switch hdr {
+		case "genuine":
+			recvs = append(recvs, types.NewPartSetFromHeader(full.Header()))
+		case "emptyroot":
+			// a crafted header: the right Total, no root (nil) / a zero-length root; no part is genuine under it
+			recvs = append(recvs, types.NewPartSetFromHeader(types.PartSetHeader{Total: full.Total(), Hash: nil}))
+			recvs = append(recvs, types.NewPartSetFromHeader(types.PartSetHeader{Total: full.Total(), Hash: []byte{}}))
+		default:
+			panic("unknown header class " + hdr)
+		}
 	}); pv != nil {
 		c.fail("panic", true, "NewPartSet-panic", fmt.Sprintf("%v\n%s", pv, st), nil, nil)
 		return
@@ -232,8 +253,14 @@ func runDyn(c *ctx, tr mbt.Trace) {
 		leaves[k] = full.GetPart(k).Hash()
 	}
 	univ := treeHashes(leaves)
+	for _, recv := range recvs {
+		runDynOn(c, tr, hdr, data, total, full, recv, univ)
+	}
+}
+
+func runDynOn(c *ctx, tr mbt.Trace, hdr string, data []byte, total int, full, recv *types.PartSet, univ [][]byte) {
 	for si, st := range tr.Steps {
-		c.si, c.act = si, fmt.Sprintf("%s%v", st.A, st.Args)
+		c.si, c.act = si, fmt.Sprintf("%s%v hdr=%s(root %v)", st.A, st.Args, hdr, recv.Hash())
 		rep.Steps++
 		if st.A != "AddPart" {
 			c.fail("error", false, "unknown-action", st.A, nil, nil)
@@ -244,7 +271,7 @@ func runDyn(c *ctx, tr mbt.Trace) {
 		if want == "added" {
 			vars = vars[:1]
 		}
-		genuine := i == j && mut == "none"
+		genuine := hdr == "genuine" && i == j && mut == "none"
 		for k, v := range vars {
 			before := project(recv)
 			wasThere := i >= 0 && i < total && recv.GetPart(i) != nil
@@ -276,6 +303,15 @@ func runDyn(c *ctx, tr mbt.Trace) {
 		}
 		// compare with the spec state
 		got := project(recv)
+		if hdr != "genuine" && (len(got.Have) > 0 || got.Count != 0 || (got.Complete && total > 0)) {
+			detail := fmt.Sprintf("a receiver built from the crafted header {Total %d, Hash %v} holds %d part(s)", total, recv.Hash(), len(got.Have))
+			if got.Complete {
+				var b []byte
+				mbt.Catch(func() { b, _ = ioutil.ReadAll(recv.GetReader()) })
+				detail += fmt.Sprintf(", is complete and reads back %d bytes that nobody committed to", len(b))
+			}
+			c.fail("property", true, "EmptyHeaderNeverFills", detail, nil, nil)
+		}
 		wantHave := st.Post["have"]
 		rep.Checks++
 		if !mbt.Equal(mbt.Norm(wantHave), mbt.Canon(got.Have)) {
@@ -434,6 +470,36 @@ func bruteForce(c *ctx, n int, leaves [][]byte, root []byte, proofs []*merkle.Si
 							continue
 						}
 						c.fail("property", true, "ProofSound", fmt.Sprintf("mutated proof of leaf %d of %d verifies (index %d, leaf %d)", i, n, idx, li), false, true)
+					}
+				}
+			}
+		}
+		// against an EMPTY expected root (nil / zero-length: a crafted header) nothing may verify, in particular
+		// not a proof that is structurally wrong for (index, total), whose recomputation yields no hash at all
+		for _, emptyRoot := range [][]byte{nil, {}} {
+			cands := []*merkle.SimpleProof{proofs[i], {Aunts: nil}, {Aunts: [][]byte{}}}
+			for _, m := range muts {
+				if len(m.Aunts) != len(au) { // an aunt dropped / inserted: structurally wrong
+					cands = append(cands, m)
+				}
+			}
+			for ci, m := range cands {
+				for idx := -n - 1; idx <= n+1; idx++ {
+					for tot := -1; tot <= n+2; tot++ {
+						if ci >= 3 && tot != n {
+							continue // mutated proofs: under the header's total only
+						}
+						for li, leaf := range leafSet {
+							var ok bool
+							pv, stack := mbt.Catch(func() { ok = m.Verify(idx, tot, leaf, emptyRoot) })
+							rep.Checks++
+							rep.Count("empty_root_rows")
+							if pv != nil {
+								c.fail("panic", true, "Verify-panic", fmt.Sprintf("Verify(index %d, total %d, empty root) on a tree of %d leaves: %v\n%s", idx, tot, n, pv, stack), nil, nil)
+							} else if ok {
+								c.fail("property", true, "ProofSound", fmt.Sprintf("Verify(index %d, total %d, leaf %d, %d aunts) is true against the EMPTY root %#v (tree of %d leaves, candidate %d of leaf %d)", idx, tot, li, len(m.Aunts), emptyRoot, n, ci, i), false, true)
+							}
+						}
 					}
 				}
 			}
